@@ -253,6 +253,8 @@ func errClass(err error) string {
 	switch {
 	case strings.HasPrefix(s, "panic:"):
 		return "panic"
+	case strings.Contains(s, "malformed block"):
+		return "malformed" // (proposed fix: the recovered nil dereference)
 	case strings.Contains(s, "block hashes do not match"):
 		return "su-blockhash"
 	case strings.Contains(s, "does not match state update's NewRoot"):
